@@ -33,6 +33,11 @@ def monitor(ctx, spec, r):
     for c, ob in zip(spec["calls"], r["obs"]):
         nrows = len(ob["rows"]) - row0
         seen = {}
+        frame = {}
+        df = c.get("memory_warm_start")
+        if df is not None and c.get("memory", True):
+            for _, fr in df.iterrows():
+                frame[tuple(float(fr[n]) for n in names)] = float(fr["score"])
         for i in range(row0, row0 + nrows):
             row, pos = o["rows"][i], o["pos_l"][i]
             vals = tuple(float(space[n][p]) for n, p in zip(names, pos))
@@ -40,7 +45,9 @@ def monitor(ctx, spec, r):
                 ctx.violation(dict(sig, kind="row-params"), dict(spec=dunit.spec_full(spec), row=i),
                               "row %d holds parameters %r but step %d evaluated position %r = %r" % (i, row["values"], i, pos, vals))
                 return
-            if c.get("memory", True) and vals in seen:
+            if c.get("memory", True) and vals in frame:
+                want = (frame[vals], None)           # warm-started: the frame's score (last such row), no objective call
+            elif c.get("memory", True) and vals in seen:
                 want = seen[vals]                    # revisit within this call: the originally returned result
             else:
                 if ci >= len(obj.calls) or obj.calls[ci][0] != vals:
@@ -73,7 +80,17 @@ def specs(ctx, n):
                                 sizes=(2, 3, 5), max_points=60, n_max=14)
         if name in ("GeneticAlgorithmOptimizer", "DifferentialEvolutionOptimizer"):
             sp["cfg"] = {k: v for k, v in (sp["cfg"] or {}).items() if k != "population"}
-        if rng.random() < 0.3:         # call-index dependent results (not deterministic): the record must still be faithful
+        if rng.random() < 0.35:        # warm-started memory (frames with scores that differ from the objective's)
+            from props import c11
+            for c in sp["calls"]:
+                if c["memory"] and rng.random() < 0.7:
+                    c["memory_warm_start"] = c11.make_frame(rng, sp["space"], sp["table"], "subset")
+                    for col in c["memory_warm_start"].columns:
+                        pass
+                    c["memory_warm_start"] = c["memory_warm_start"][[col for col in c["memory_warm_start"].columns]]
+                    # finite frame scores only: non-finite ones trigger the (known, C15) crashes of some optimizers
+                    c["memory_warm_start"] = c["memory_warm_start"].assign(score=[float(rng.choice([-7.5, -1.0, 0.0, 3.25, 100.0])) for _ in range(len(c["memory_warm_start"]))])
+        elif rng.random() < 0.3:       # call-index dependent results (not deterministic): the record must still be faithful
             tot = sum(c["n_iter"] for c in sp["calls"])
             sp["script"] = [(float(rng.randint(-5, 5)), ({"m0": rng.randint(0, 9)} if rng.random() < 0.5 else None)) for _ in range(tot)]
         out.append(sp)
